@@ -11,7 +11,7 @@
     [value_spec], [experiment_ok]; Out/ContinuousLive.v [attempt] (what one pass
     of the loop body does with the draws of one attempt: [Accept out] /
     [Reject] / [Raise e]), [scan], [well_ordered], [constraints_wf];
-    Out/ContinuousDeps.v [recorded], [has_cont].
+    Out/Continuous.v [needed] (the continuous factors a dependent reads).
 
     SAFETY ([C22_continuous_spec], [C22_window_val_*], [C22_discrete_untouched]):
     "if [synthesize_post] returns [Ok], then ...".
@@ -40,18 +40,25 @@
     the constraints (it is a property of the stream, the hypothesis of the
     theorems): with an unsatisfiable constraint the Python loop runs forever.
 
-    THE DEPENDENCY CHECK [__check_dependency] of the constructor:
-    [C22_dependency_check_exact] (acceptance <-> every direct continuous
-    dependent is an earlier RECORDED factor: one without dependents or with a
-    continuous dependent of its own), [C22_dependency_check_sound] (an accepted
-    design does not raise while sampling, PROVIDED its windows range over earlier
-    factors - the check never looks into windows), [C22_dependency_check_complete]
-    (designs whose direct continuous dependents are earlier recorded factors are
-    accepted), [C22_dependency_check_rejects_derived] (every design that uses a
-    factor derived only from discrete factors / windows as a direct dependent is
-    rejected, although the documentation allows it), and the two statements that
-    are false of the model and of the code, with witnesses replayed on the code:
-    [..._sound_refuted], [..._complete_refuted]. *)
+    THE DEPENDENCY CHECK [__check_dependency] of the constructor.  An earlier
+    version of this file refuted two statements about the check of the pinned
+    code: [C22_dependency_check_sound_refuted] (c1 = f(ContinuousFactorWindow([c0], 2))
+    declared before c0, or without c0: accepted, KeyError while sampling) and
+    [C22_dependency_check_complete_refuted] (c0 = f(color), c1 = g(c0): rejected
+    although every dependent is an earlier factor of the design, which the
+    documentation allows).  Both witnesses were REPLAYED ON THE REAL CODE,
+    reproduced there, and the code was REPAIRED: commits 91e3c5c "fix: a continuous
+    factor that depends only on discrete factors could not be a dependency of a
+    later one" and 97de4ab "fix: continuous factors read through a window were not
+    checked to be in the design".  The model follows the repaired check, and the
+    two statements are now theorems: [C22_dependency_check_sound] (an accepted
+    design never raises while sampling and yields T values per factor),
+    [C22_dependency_check_complete] (every design whose continuous dependents,
+    direct or through windows, are earlier continuous factors of the design is
+    accepted), together [C22_dependency_check_exact]; the two witnesses are the
+    [Example C22_example_witnesses_repaired].  One degenerate input is still
+    accepted and raises: a window over an empty list of factors
+    ([C22_dependency_check_empty_window_refuted]; replayed: IndexError). *)
 From Coq Require Import ZArith List Bool String.
 From SP Require Import Out.Continuous Out.ContinuousProofs Out.ContinuousLive Out.ContinuousDeps.
 Import ListNotations.
@@ -277,38 +284,35 @@ Print Assumptions C22_synthesize_live.
 
 (** * The dependency check of the constructor *)
 
-(** EXACTLY what [__check_dependency] accepts: every direct continuous
-    dependent [n] of every factor is the name of an earlier factor that the check
-    RECORDED - one without dependents, or with a continuous dependent of its own
-    ([recorded]) - or is the factor itself after another continuous dependent
-    (which Python cannot construct). *)
+(** EXACTLY what [__check_dependency] accepts: every continuous factor [n] a
+    factor needs - a direct ContinuousFactor dependent, or a factor of one of its
+    windows ([needed]) - is an earlier continuous factor of the design. *)
 Theorem C22_dependency_check_exact : forall fs,
   check_dependency fs = true <->
-  forall pre f post d1 n d2, fs = pre ++ f :: post -> cf_deps f = d1 ++ DCont n :: d2 ->
-    In n (recorded pre) \/ (n = cf_name f /\ has_cont d1 = true).
+  forall pre f post d n, fs = pre ++ f :: post -> In d (cf_deps f) -> In n (needed d) ->
+    In n (map cf_name pre).
 Proof. exact dependency_check_exact. Qed.
 Print Assumptions C22_dependency_check_exact.
 
-(** Corollary (the former [C22_dependency_check_partial]): a direct continuous
-    dependent of an accepted design is an earlier factor of the design. *)
+(** Corollary (statement unchanged from the pinned code's check): a direct
+    continuous dependent of an accepted design is an earlier factor of the design. *)
 Theorem C22_dependency_check_direct : forall fs pre f post n,
   check_dependency fs = true -> fs = pre ++ f :: post -> In (DCont n) (cf_deps f) ->
   In n (map cf_name pre) \/ n = cf_name f.
 Proof. exact dependency_check_partial. Qed.
 Print Assumptions C22_dependency_check_direct.
 
-(** SOUND up to what it does not look at: an accepted design never raises while
-    sampling and yields [T] values per factor, provided the windows range over
-    earlier factors (and are non-empty), no factor is its own dependent, the
-    discrete dependents are columns of the sampled trials, and cumulative
-    functions return no string. *)
+(** SOUND (formerly [..._sound_refuted]): an accepted design never raises while
+    sampling and yields [T] values per factor.  Each remaining hypothesis is
+    necessary: distinct names; no window over an empty list of factors (see
+    [C22_dependency_check_empty_window_refuted]); the discrete dependents are
+    columns of the sampled trials (the block's design, not this check); in
+    cumulative mode the function returns no string. *)
 Theorem C22_dependency_check_sound :
   forall (gen : string -> nat -> nat -> list input -> val)
          (T : nat) (trial : dict) (fs : list cfactor) (a : nat) (log : list call),
   NoDup (map cf_name fs) -> check_dependency fs = true ->
-  (forall pre f post w, fs = pre ++ f :: post -> In (DWin w) (cf_deps f) ->
-     w_factors w <> [] /\ forall g, In g (w_factors w) -> In g (map cf_name pre)) ->
-  (forall f, In f fs -> ~ In (DCont (cf_name f)) (cf_deps f)) ->
+  (forall f w, In f fs -> In (DWin w) (cf_deps f) -> w_factors w <> []) ->
   (forall f n, In f fs -> In (DDisc n) (cf_deps f) -> exists l, get trial n = Some l /\ (T <= List.length l)%nat) ->
   (forall f, In f fs -> cf_cumulative f = true -> forall a i inp t, gen (cf_name f) a i inp <> VStr t) ->
   exists out log', _sample_continuous gen T trial fs a log = Ok (out, log') /\
@@ -316,50 +320,53 @@ Theorem C22_dependency_check_sound :
 Proof. exact dependency_check_sound. Qed.
 Print Assumptions C22_dependency_check_sound.
 
-(** COMPLETE up to "recorded": a design in which every direct continuous
-    dependent is an earlier factor that has no dependents or has a continuous
-    dependent itself is accepted. *)
+(** ... and with well-formed constraints no attempt of the resample loop raises
+    on an accepted design (so [C22_resample_live] applies with its "no earlier
+    attempt raises" hypothesis discharged). *)
+Theorem C22_accepted_attempt_total :
+  forall (gen : string -> nat -> nat -> list input -> val)
+         (T : nat) (trial : dict) (fs : list cfactor) (cs : list bconstraint) (a : nat),
+  NoDup (map cf_name fs) -> check_dependency fs = true ->
+  (forall f w, In f fs -> In (DWin w) (cf_deps f) -> w_factors w <> []) ->
+  (forall f n, In f fs -> In (DDisc n) (cf_deps f) -> exists l, get trial n = Some l /\ (T <= List.length l)%nat) ->
+  (forall f, In f fs -> cf_cumulative f = true -> forall a i inp t, gen (cf_name f) a i inp <> VStr t) ->
+  constraints_wf fs cs ->
+  forall e, attempt gen T trial fs cs a <> Raise e.
+Proof. exact accepted_attempt_total. Qed.
+Print Assumptions C22_accepted_attempt_total.
+
+(** COMPLETE (formerly [..._complete_refuted]): every design whose continuous
+    dependents, direct or through windows, are earlier continuous factors of the
+    design is accepted. *)
 Theorem C22_dependency_check_complete : forall fs,
-  (forall pre f post n, fs = pre ++ f :: post -> In (DCont n) (cf_deps f) ->
-     exists g, In g pre /\ cf_name g = n /\ (cf_deps g = [] \/ exists m, In (DCont m) (cf_deps g))) ->
+  (forall pre f post n, fs = pre ++ f :: post -> In (DCont n) (cf_deps f) -> In n (map cf_name pre)) ->
+  (forall pre f post w g, fs = pre ++ f :: post -> In (DWin w) (cf_deps f) -> In g (w_factors w) ->
+     In g (map cf_name pre)) ->
   check_dependency fs = true.
 Proof. exact dependency_check_complete. Qed.
 Print Assumptions C22_dependency_check_complete.
 
-(** ... and that condition cannot be dropped: EVERY design in which a factor
-    [g] derived only from discrete factors and/or windows is a direct dependent
-    of a later factor is rejected ("dependency g not included in the design"),
-    although [g] is in the design, precedes its user, and the documentation
-    allows any ContinuousFactor of the design as a dependent. *)
-Theorem C22_dependency_check_rejects_derived : forall pre g mid f post,
-  NoDup (map cf_name (pre ++ g :: mid ++ f :: post)) ->
-  cf_deps g <> [] -> (forall m, ~ In (DCont m) (cf_deps g)) ->
-  In (DCont (cf_name g)) (cf_deps f) ->
-  check_dependency (pre ++ g :: mid ++ f :: post) = false.
-Proof. exact dependency_check_rejects_derived. Qed.
-Print Assumptions C22_dependency_check_rejects_derived.
-
-(** Full statement that is FALSE: "an accepted design never raises while
-    sampling".  Witness: c1 = f(ContinuousFactorWindow([c0], 2)) declared
-    before c0 (or without c0): accepted, [_sample_continuous] raises KeyError.
-    Replayed on the code: CrossBlock([color, c1, c0], [color], [MinimumTrials(4)])
-    is constructed, synthesize_trials raises KeyError('c0'). *)
-Theorem C22_dependency_check_sound_refuted :
+(** Statement that is still FALSE: "an accepted design never raises while
+    sampling" without the hypothesis on windows.  Witness:
+    c0 = f(ContinuousFactorWindow([], 2)): accepted, [get_window_val] raises
+    IndexError ([outlist[0]]).  Replayed on the code: the CrossBlock is
+    constructed, synthesize_trials raises IndexError('list index out of range'). *)
+Theorem C22_dependency_check_empty_window_refuted :
   exists fs T trial, NoDup (map cf_name fs) /\ check_dependency fs = true /\
-    forall gen a, _sample_continuous gen T trial fs a [] = Err KeyError.
-Proof. exact dependency_check_sound_refuted. Qed.
-Print Assumptions C22_dependency_check_sound_refuted.
+    forall gen a, _sample_continuous gen T trial fs a [] = Err IndexError.
+Proof. exact dependency_check_empty_window_refuted. Qed.
+Print Assumptions C22_dependency_check_empty_window_refuted.
 
-(** Full statement that is FALSE: "a design whose dependents are all earlier
-    factors of the design is accepted".  Witness: c0 = f(color), c1 = g(c0):
-    rejected although sampling it is well defined.  Replayed on the code: the
-    CrossBlock constructor raises RuntimeError("... c1 has dependency c0 not
-    included in the deisgn").  General form: [C22_dependency_check_rejects_derived]. *)
-Theorem C22_dependency_check_complete_refuted :
-  exists fs T trial gen, NoDup (map cf_name fs) /\ check_dependency fs = false /\
-    exists out log, _sample_continuous gen T trial fs O [] = Ok (out, log).
-Proof. exact dependency_check_complete_refuted. Qed.
-Print Assumptions C22_dependency_check_complete_refuted.
+(** The two former refutation witnesses under the repaired check: the window
+    over a later factor is rejected by the constructor (sampling it would still
+    raise KeyError); the chain c0 = f(color), c1 = g(c0) is accepted and sampled. *)
+Example C22_example_witnesses_repaired :
+  (NoDup (map cf_name later_window_design) /\ check_dependency later_window_design = false /\
+   forall gen a, _sample_continuous gen 2 [] later_window_design a [] = Err KeyError) /\
+  (NoDup (map cf_name chain_design) /\ check_dependency chain_design = true /\
+   exists out log, _sample_continuous (fun _ _ _ _ => VNum 1) 2 [("color"%string, [VStr "r"; VStr "b"])]
+                                      chain_design O [] = Ok (out, log)).
+Proof. split; [exact later_window_design_rejected|exact chain_design_accepted]. Qed.
 
 (** The hypotheses are satisfiable by a non-trivial object: four continuous
     factors (independent; window of width 2; cumulative; discrete + continuous
@@ -372,19 +379,18 @@ Proof. split; [discriminate|]. split; [exact ex_names_nodup|exact ex_runs]. Qed.
 
 (** The hypotheses of the liveness / totality / dependency theorems hold of the
     same design: it is well ordered, its constraint is well formed, its functions
-    return no string, the dependency check accepts it (recording rt, total, mix
-    but not diff, which is derived from a window only); on the first sampled
+    return no string, the dependency check accepts it; on the first sampled
     sequence attempt 0 is rejected and attempt 1 accepted - so with fuel 5 the
     loop returns attempt 1. *)
 Example C22_example_live :
   (forall tr, In tr ex_trials -> well_ordered 3 tr ex_fs) /\ constraints_wf ex_fs ex_cs /\
   (forall name a i inp t, ex_gen name a i inp <> VStr t) /\
-  check_dependency ex_fs = true /\ recorded ex_fs = ["rt"; "total"; "mix"]%string /\
+  check_dependency ex_fs = true /\
   attempt ex_gen 3 (hd [] ex_trials) ex_fs ex_cs 0 = Reject /\
   exists out, attempt ex_gen 3 (hd [] ex_trials) ex_fs ex_cs 1 = Accept out.
 Proof.
   split; [exact ex_well_ordered|]. split; [exact ex_constraints_wf|]. split; [exact ex_gen_nostr|].
-  split; [exact (proj1 ex_check_dependency)|]. split; [exact (proj2 ex_check_dependency)|].
+  split; [exact ex_check_dependency|].
   split; [exact (proj1 ex_attempts)|]. eexists. exact (proj2 ex_attempts).
 Qed.
 
